@@ -74,6 +74,10 @@ Bases ==
         <<"group", "T1", GroupBase("T1")>>, <<"group", "A3", GroupBase("A3")>>,
         <<"insert", "T1", <<[m |-> "into", src |-> "T1"]>> >>,
         <<"upsert", "T1", <<[m |-> "into", src |-> "T1"], [m |-> "insert", row |-> <<Num("1"), Num("9"), Str("u")>>], [m |-> "on_conflict", names |-> <<"a">>]>> >>,
+        <<"upsert-select", "T2", <<[m |-> "into", src |-> "T1"], [m |-> "from_", src |-> "T2"], Sel(<<Fld("T2", "a"), Fld("T2", "b"), Fld("T2", "c")>>),
+                                   [m |-> "on_conflict", names |-> <<"a">>], [m |-> "do_nothing"]>> >>,
+        <<"upsert-select", "T2", <<[m |-> "into", src |-> "T1"], [m |-> "from_", src |-> "T2"], Sel(<<Fld("T2", "a"), Fld("T2", "b"), Fld("T2", "c")>>),
+                                   [m |-> "on_conflict", names |-> <<"a">>], [m |-> "do_update", col |-> "b", val |-> Num("4")]>> >>,
         <<"update", "T1", <<[m |-> "update", src |-> "T1"]>> >>, <<"update", "A3", <<[m |-> "update", src |-> "A3"]>> >>,
         <<"update-from", "T1", <<[m |-> "update", src |-> "T1"], [m |-> "from_", src |-> "T2"], Where(Bin("=", Fld("T1", "a"), Fld("T2", "a")))>> >>,
         <<"update-join", "T1", <<[m |-> "update", src |-> "T1"], JoinOn("T1", "T2", "")>> >>,
@@ -88,6 +92,12 @@ Units(kind, s) ==
          <<[m |-> "columns", names |-> <<"a", "c">>], [m |-> "insert", row |-> <<Num("5"), Str("q")>>]>>,
          <<[m |-> "replace", row |-> <<Num("1"), Num("8"), Str("r")>>]>>,
          <<[m |-> "from_", src |-> "T2"], Sel(<<Fld("T2", "a"), Bin("*", Fld("T2", "b"), Num("2")), Fld("T2", "c")>>), Where(Bin(">", Fld("T2", "a"), Num("5")))>>}
+    ELSE IF kind = "upsert-select" THEN
+        {<<Where(Bin(">", Fld("T2", "a"), Num("0")))>>, <<Where(Bin(">", Fld("T2", "a"), Num("0"))), [m |-> "orderby", terms |-> <<Fld("T2", "a")>>, dir |-> ""], [m |-> "limit", n |-> 2]>>,
+         <<[m |-> "orderby", terms |-> <<Fld("T2", "a")>>, dir |-> ""], [m |-> "limit", n |-> 2]>>,
+         <<[m |-> "groupby", terms |-> <<Fld("T2", "a"), Fld("T2", "b"), Fld("T2", "c")>>]>>,
+         <<[m |-> "groupby", terms |-> <<Fld("T2", "a"), Fld("T2", "b"), Fld("T2", "c")>>], [m |-> "having", crit |-> Bin(">", Fld("T2", "a"), Num("0"))]>>,
+         <<[m |-> "distinct"]>>}
     ELSE IF kind = "upsert" THEN
         {<<[m |-> "do_nothing"]>>, <<[m |-> "do_update", col |-> "b", val |-> Num("4")]>>,
          <<[m |-> "do_update", col |-> "b", val |-> Bin("+", Fld("T1", "b"), Num("1"))]>>,
